@@ -208,6 +208,8 @@ size_t varintPFORReadMeta(const uint8_t *src, varintPFORMeta *meta) {
 
     /* threshold is not stored, set to default */
     meta->threshold = VARINT_PFOR_THRESHOLD_95;
+    /* thresholdValue is not stored either (only the encoder needs it) */
+    meta->thresholdValue = 0;
 
     return (size_t)(src - start);
 }
